@@ -24,9 +24,9 @@ pub open spec fn full_name_of(package: Seq<char>, name: Seq<char>) -> Seq<char> 
 #[verifier::external_body] pub fn join_colons(a: &str, b: &str) -> (r: String) ensures r@ == a@ + "::"@ + b@ { unimplemented!() }    // format!("{}::{}", a, b)
 // none of the nine names contains a `:`, so a qualified name `Pkg::f` is never one of them
 pub proof fn lemma_builtin_names_unqualified(p: Seq<char>, n: Seq<char>)
-    ensures !name_keyed_builtin(p + "::"@ + n),
+    ensures !name_keyed_builtin(p + "::"@ + n), !runtime_called_by_name(p + "::"@ + n),
 {
-    reveal_strlit("::"); reveal_strlit("array_get"); reveal_strlit("array_set"); reveal_strlit("ref"); reveal_strlit("ref_get"); reveal_strlit("ref_set");
+    reveal_strlit("missing"); reveal_strlit("::"); reveal_strlit("array_get"); reveal_strlit("array_set"); reveal_strlit("ref"); reveal_strlit("ref_get"); reveal_strlit("ref_set");
     reveal_strlit("vec_new"); reveal_strlit("vec_push"); reveal_strlit("vec_get"); reveal_strlit("vec_len");
     let s = p + "::"@ + n;
     assert(s[p.len() as int] == ':');
